@@ -4,6 +4,11 @@ import math
 from hypothesis import strategies as st
 
 
+def sig6(v):
+    """Six significant digits (for values of any magnitude)."""
+    return float('%.6g' % v)
+
+
 def r6(v):
     return float('%.6g' % v)
 
